@@ -275,11 +275,12 @@ def _gen_wait_det(rnd, depth=1):
     """deterministic wait strategies (C06 exactness) incl. chain / combine"""
     if depth <= 0 or rnd.random() < 0.5:
         k = rnd.choice(["fixed", "exp", "inc", "exp"])
+        td = rnd.random() < 0.25   # durations spelled as datetime.timedelta
         if k == "fixed":
-            return {"k": k, "w": rnd.choice([0.25, 0.5, 1, 2, 3])}
+            return {"k": k, "w": rnd.choice([0.25, 0.5, 1, 2, 3]), "td": td}
         if k == "exp":
-            return {"k": k, "mult": rnd.choice([0.25, 0.5, 1, 2]), "base": rnd.choice([0.5, 1.5, 2, 3]), "max": rnd.choice([5, 8, 60]), "min": rnd.choice([0, 0, 0.125])}
-        return {"k": k, "start": rnd.choice([0.25, 0.5, 1]), "inc": rnd.choice([0.25, 0.5, 1]), "max": rnd.choice([2, 4, 100])}
+            return {"k": k, "mult": rnd.choice([0.25, 0.5, 1, 2]), "base": rnd.choice([0.5, 1.5, 2, 3]), "max": rnd.choice([5, 8, 60, 7.5]), "min": rnd.choice([0, 0, 0.125]), "td": td}
+        return {"k": k, "start": rnd.choice([0.25, 0.5, 1]), "inc": rnd.choice([0.25, 0.5, 1]), "max": rnd.choice([2, 4, 100]), "td": td}
     k = rnd.choice(["chain", "chain", "combine", "plus"])
     n = rnd.randint(2, 3)
     return {"k": k, "parts": [_gen_wait_det(rnd, depth - 1) for _ in range(n)]}
